@@ -46,7 +46,7 @@ func C07(p *ir.Program, r *report.R) {
 	// the signature pre-check trusts the mempool cache only for transactions that passed their basic check
 	c05Cache(c)
 	r.Floor = 45
-	r.Explain = "Decided: (in one transaction) the duplicate-key-image test dominates the insertion into the per-transaction set and the subgroup check (ScalarmultKey(KeyImage, CurveOrder) == Identity) is on every path that accepts a confidential input; (in one block) the per-block key-image set test dominates its insertion, after CheckStoreState succeeded, and GetInputKeyImages returns the image of every confidential input; (across blocks / mempool) every iteration of CheckStoreState and checkState that handles a confidential input passes the not-spent-in-store test (checkState additionally not-in-mempool) and checkState pushes every collected image on its success path; (persistence) the images of every confidential transaction are collected by txRawProcess, stored with the block by CommitBlock after SaveBlock and SaveKImages writes every element and returns the batch error; (accounts) the three-way nonce comparison of all six check functions rejects txNonce<stateNonce as too low and txNonce>stateNonce as too high with the exact operands, the nonce is advanced by exactly one for every input on every path of Transit after preTransit succeeded. ADDED after seeded-change testing: SaveUtxo reaches SaveKImages(kImgs) on every path (skipped only for an empty image slice); the per-block and mempool key-image sets are keyed by the image value, not a pointer; in GenerateTransaction every input nonce is the transaction's own Nonce() (reviewed exemption: the account input of a confidential transaction, compared in CheckStoreState). NOT decided: global uniqueness over histories as a set property, mempool/chain interleavings (C15), the cryptographic link between key image and output."
+	r.Explain = "Decided: (in one transaction) the duplicate-key-image test dominates the insertion into the per-transaction set and the subgroup check (ScalarmultKey(KeyImage, CurveOrder) == Identity) is on every path that accepts a confidential input; (in one block) the per-block key-image set test dominates its insertion, after CheckStoreState succeeded, and GetInputKeyImages returns the image of every confidential input; (across blocks / mempool) every iteration of CheckStoreState and checkState that handles a confidential input passes the not-spent-in-store test (checkState additionally not-in-mempool) and checkState pushes every collected image on its success path; (persistence) the images of every confidential transaction are collected by txRawProcess, stored with the block by CommitBlock after SaveBlock and SaveKImages writes every element and returns the batch error; (accounts) the three-way nonce comparison of all six check functions rejects txNonce<stateNonce as too low and txNonce>stateNonce as too high with the exact operands, the nonce is advanced by exactly one for every input on every path of Transit after preTransit succeeded. ADDED after seeded-change testing: SaveUtxo reaches SaveKImages(kImgs) on every path (skipped only for an empty image slice); the per-block and mempool key-image sets are keyed by the image value, not a pointer; in GenerateTransaction every input nonce is the transaction's own Nonce() (reviewed exemption: the account input of a confidential transaction, compared in CheckStoreState). Rounds 4-5: checkValid consults the store state on every UTXO path; the mempool signature cache rule is shared. NOT decided: global uniqueness over histories as a set property, mempool/chain interleavings (C15), the cryptographic link between key image and output."
 	r.Trusted = []string{"ringct.ScalarmultKey / CurveOrder / Identity (cgo)", "UTXOStore backend (C19)"}
 
 	// ---- in one transaction --------------------------------------------------
